@@ -12,6 +12,7 @@ NOT_DECIDED = ("'exactly one token per non-empty overlap' as a counting statemen
                "(outside the property's grids).")
 
 RULES = {
+    "C10.RG": lambda ctx: __import__("rules.foundations", fromlist=["x"]).no_global_state(ctx, "C10.RG"),
     "C10.RL": lambda ctx: __import__("rules.common", fromlist=["x"]).loop_exit_rule(ctx, "C10.RL", {'types::SourceMap::adjust_mappings': 3, 'types::SourceMap::adjust_mappings::create_ranges': 1}),
     "C10.R1": lambda ctx: adjrules.keys(ctx, "C10.R1"),
     "C10.R2": lambda ctx: adjrules.sweep(ctx, "C10.R2"),
